@@ -28,7 +28,7 @@ def universe(kind):
            dict(PNONE, pq="F"), dict(PNONE, clean="T"), dict(PNONE, ns="s", cautious="T"), dict(PNONE, lay="copy_all"),
            dict(PNONE, lay="TR_desc_S", pq="T"), dict(PNONE, lay="TRS_desc"), dict(PNONE, ocr="T"), dict(PNONE, ocr="T", pq="T")]
     ops = [op("parse", c, k, PNONE) for c in (True, False) for k in kws]
-    ops += [op("parse_tracts", True, dict(PNONE, clean=x), PNONE) for x in (NA, "T", "F")]
+    ops += [op("parse_tracts", True, dict(PNONE, clean=x), dict(PNONE, lay=c)) for x in (NA, "T", "F") for c in (NA, "bh")]
     ops += [op("preprocess", c, dict(PNONE, ns=x), PNONE) for c in (True, False) for x in (NA, "s", "n")]
     ops += [op("config", True, PNONE, a) for a in PA]
     ops += [op("sort", True, PNONE, PNONE), op("filter", True, PNONE, PNONE), op("filter", False, PNONE, PNONE)]
@@ -64,7 +64,7 @@ def check(ctx, cases):
 
 def run(ctx):
     thorough = ctx.tier == "thorough"
-    invs = ["Idempotent", "Replaces", "FreshEquivalent"]
+    invs = ["Idempotent", "Replaces", "FreshEquivalent", "KeywordOfParseTractsDoesNotStick"]
     props = ["CommitFalseChangesNothing"]
     base = {"MaxOps": 3 if thorough else 2, "Kinds": {"tract", "plss"}}
     ctx.tlc("Lifecycle", dict(base, Fault="none", EmitCases=False), invariants=invs, properties=props)
@@ -73,6 +73,8 @@ def run(ctx):
     ctx.require_actions(["Do"])
     ctx.tlc("Lifecycle", dict(base, MaxOps=2, Fault="commit_keeps_order", EmitCases=False), invariants=invs,
             expect_violation="commit_keeps_order", count=False)
+    ctx.tlc("Lifecycle", dict(base, MaxOps=2, Fault="kw_written_to_tracts", EmitCases=False), invariants=invs,
+            expect_violation="kw_written_to_tracts", count=False)
     ctx.tlc("Lifecycle", dict(base, MaxOps=1, Fault="preprocess_always_commits", EmitCases=False), invariants=invs,
             properties=props, expect_violation="preprocess_always_commits", count=False)
     # spec -> code: every behaviour of the bounded model
